@@ -18,7 +18,7 @@ type Timer struct {
 
 func (s *Sched) timerChan(label string) chan time.Time {
 	c := make(chan time.Time, 1)
-	ci := s.chanInfo(chanPtr(c), label)
+	ci := s.chanInfo(chanPtr(c), label, c)
 	_ = ci
 	return c
 }
